@@ -111,6 +111,11 @@ type Result struct {
 	Switches   int
 	ClockJumps int
 	Quiesces   int
+	// Preempt counts, per kind of synchronisation site, how often the
+	// scheduler released a different task while the previously running task
+	// was parked in front of such an operation (e.g. "condwait": another
+	// task ran between a waiter's predicate check and its cond.Wait).
+	Preempt map[string]int
 }
 
 // Sim is one simulation.
@@ -135,6 +140,7 @@ type Sim struct {
 	start      time.Time
 	pctChg     []int
 	lowPrio    int
+	preempt    map[string]int
 	smaps      []smapEntry
 	smapSeq    uint64
 }
@@ -475,7 +481,7 @@ func New(cfg Config) *Sim {
 	if cfg.MaxSteps <= 0 {
 		cfg.MaxSteps = 20000
 	}
-	s := &Sim{cfg: cfg, tape: cfg.Tape, digest: 14695981039346656037}
+	s := &Sim{cfg: cfg, tape: cfg.Tape, digest: 14695981039346656037, preempt: map[string]int{}}
 	return s
 }
 
@@ -610,6 +616,9 @@ func (s *Sim) Run(root func()) *Result {
 		t.steps++
 		if t != s.last {
 			s.switches++
+			if s.last != nil && s.last.state.Load() == stEnabled {
+				s.preempt[siteKind(s.last.site)]++
+			}
 		}
 		for _, c := range s.pctChg {
 			if c == s.steps {
@@ -637,6 +646,7 @@ func (s *Sim) Run(root func()) *Result {
 	res.Switches = s.switches
 	res.ClockJumps = s.jumps
 	res.Quiesces = s.quiesces
+	res.Preempt = s.preempt
 	res.SimTime = time.Since(s.start)
 	res.Strays = int(s.strays.Load())
 	if p := s.strayMsg.Load(); p != nil {
@@ -797,4 +807,19 @@ func Exited(id string) bool {
 		}
 	}
 	return false
+}
+
+// siteKind extracts "lock" from "pkg.Func:lock#3" ("wake" for post-gates).
+//
+//go:norace
+func siteKind(site string) string {
+	if strings.HasPrefix(site, "wake@") {
+		return "wake"
+	}
+	i := strings.LastIndexByte(site, ':')
+	j := strings.LastIndexByte(site, '#')
+	if i < 0 || j < i {
+		return site
+	}
+	return site[i+1 : j]
 }
